@@ -58,6 +58,7 @@ XLSX_FEATURES = {
     "no-core-props": "no docProps/core.xml (twin: present)",
     "sheet-order-vs-file": "sheet order in workbook.xml differs from sheetN.xml numbering, images on 2nd (twin: same order)",
     "leading-empty-row": "data starts at row 2 (twin: row 1)",
+    "image-size-unknown": "picture in a format whose size cannot be sniffed (EMF) anchored with ext cx=cy=0 (twin: PNG with a real extent)",
 }
 
 
@@ -622,6 +623,8 @@ def build_xlsx(seed: int, feature: str | None = None, twin: bool = False):
         n_img = 0
         if feature == "sheet-order-vs-file":
             n_img = 1 if s == 1 else 0
+        elif feature == "image-size-unknown":
+            n_img = 1 if s == feature_sheet else 0
         elif rng.random() < 0.3:
             n_img = rng.randint(1, 2)
         fno = file_no[s]
@@ -630,13 +633,16 @@ def build_xlsx(seed: int, feature: str | None = None, twin: bool = False):
             for _ in range(n_img):
                 img_no += 1
                 im = _rand_image(rng, img_no)
+                if risky == "image-size-unknown":
+                    blob = b"\x01\x00\x00\x00" + bytes(rng.randrange(256) for _ in range(120))
+                    im = {"data": blob, "ctype": "image/x-emf", "ext": ".emf", "w": 0, "h": 0, "sha": sha1(blob)}
                 name = f"image{img_no}{im['ext']}"
                 parts[f"xl/media/{name}"] = im["data"]
                 drels.append((f"rId{img_no}", REL_T + "image", f"../media/{name}", None))
                 anchors.append(f'<xdr:oneCellAnchor><xdr:from><xdr:col>1</xdr:col><xdr:colOff>0</xdr:colOff><xdr:row>{img_no}</xdr:row><xdr:rowOff>0</xdr:rowOff></xdr:from>'
                                f'<xdr:ext cx="{im["w"] * 9525}" cy="{im["h"] * 9525}"/><xdr:pic><xdr:nvPicPr><xdr:cNvPr id="{img_no}" name="Pic {img_no}" descr="d"/><xdr:cNvPicPr/></xdr:nvPicPr>'
                                f'<xdr:blipFill><a:blip xmlns:r="{R_NS}" r:embed="rId{img_no}"/><a:stretch><a:fillRect/></a:stretch></xdr:blipFill><xdr:spPr/></xdr:pic><xdr:clientData/></xdr:oneCellAnchor>')
-                exp.images.append({"sha": im["sha"], "ctype": im["ctype"], "w": im["w"], "h": im["h"], "unit": s + 1})
+                exp.images.append({"sha": im["sha"], "ctype": im["ctype"], "w": im["w"] or None, "h": im["h"] or None, "unit": s + 1})
             parts[f"xl/drawings/drawing{fno}.xml"] = f'<?xml version="1.0" encoding="UTF-8"?><xdr:wsDr xmlns:xdr="{XDR}" xmlns:a="{A}">{"".join(anchors)}</xdr:wsDr>'.encode()
             parts[f"xl/drawings/_rels/drawing{fno}.xml.rels"] = _rels(drels)
             parts[f"xl/worksheets/_rels/sheet{fno}.xml.rels"] = _rels([("rIdD", REL_T + "drawing", f"../drawings/drawing{fno}.xml", None)])
